@@ -181,6 +181,11 @@ class Prog:
     def begin_indep(self):
         self.all_ok("begin_indep")
         self.indep = True
+        # ncmpi_begin_indep_data() neither synchronises the processes nor the file ("If users want a stronger data
+        # consistency, ncmpi_sync() should be called following this subroutine"): without this, a rank could start
+        # writing independently while another rank is still inside the preceding collective write
+        if self.np > 1:
+            self.emit("*", "barrier")
 
     def end_indep(self):
         self.all_ok("end_indep")
@@ -196,6 +201,11 @@ class Prog:
         self.emit("*", "open", Expect(0, what="open"), f=self.f, path="s:" + self.path, omode=omode, info=info or self.info or "-")
         self.defmode = False
         self.indep = False
+        # the fill mode is not part of the file: a freshly opened file is in NC_NOFILL mode and so is every variable
+        self.fillmode = False
+        for v in self.fm.vars:
+            v.nofill = True
+        self.new_vars = []
 
     # -------------------------------------------------------------- selections
     def shape_now(self, v):
@@ -311,7 +321,7 @@ class Prog:
                 return "flex", None            # MPI_DATATYPE_NULL: buffer is of the external type
             # the flexible API requires bufcount * (elements per buftype instance) == request elements
             for _ in range(6):
-                td = random_td(rng, prim)
+                td = random_td(rng, prim, passthrough_safe=(np.dtype(MEM[prim]).itemsize == 1))
                 if nelem == 0 or nelem % len(td.tm) == 0:
                     return "flex", td
             base = TD.prim_(prim)
